@@ -149,6 +149,43 @@ class Value:
                      tuple(d['deps']), d['extra'], pad)
 
 
+class NoneValue(Value):
+    """What the reference model and the recorders hold for a task whose run() returns None: equal to
+    None (and to itself), with a digest of its own."""
+
+    def __init__(self):
+        super().__init__('<none>', -1, '', (), ())
+
+    @property
+    def digest(self) -> str:
+        return '<non-value NoneType>'
+
+    def __eq__(self, other):
+        return other is None or isinstance(other, NoneValue)
+
+    def __ne__(self, other):
+        return not self.__eq__(other)
+
+    def __hash__(self):
+        return hash('<none>')
+
+    def __repr__(self):
+        return 'None'
+
+    def brief(self):
+        return None
+
+
+NONE = NoneValue()
+
+
+def same_value(actual, expected) -> bool:
+    """Does the value labtech produced equal the reference value?"""
+    if isinstance(expected, NoneValue):
+        return actual is None
+    return isinstance(actual, Value) and actual == expected
+
+
 def _pad_sig(pad):
     if pad is None:
         return None
@@ -197,7 +234,7 @@ class JsonCache(BaseCache):
 
 # ---------------------------------------------------------------- run body
 
-def _run(self, extra=None, refer_to_self=False):
+def _run(self, extra=None, refer_to_self=False, returns_none=False):
     pr = probe.ACTIVE
     pr.begin(self)
     dep_digests = []
@@ -220,6 +257,10 @@ def _run(self, extra=None, refer_to_self=False):
         extra=extra,
         pad=((self,) + tuple(direct_dep_occurrences(self))) if refer_to_self else make_pad(pr.shape(self), self.ident),
     )
+    if returns_none:
+        del val
+        pr.end(self, NONE)
+        return None
     pr.end(self, val)
     return val
 
@@ -353,6 +394,18 @@ class TR:
 
 
 @labtech.task
+class TZ:
+    """Its result is None."""
+    ident: int
+    tag: str
+    deps: Any = ()
+    opt: Any = None
+
+    def run(self):
+        return _run(self, returns_none=True)
+
+
+@labtech.task
 class Node:
     ident: int
     tag: str
@@ -380,7 +433,7 @@ def _late_types():
 
 
 TYPES = {
-    'TA': TA, 'TB': TB, 'TC': TC, 'TD': TD, 'TN': TN, 'TN1': TN1, 'TN2': TN2, 'TF': TF, 'TP': TP, 'TR': TR,
+    'TA': TA, 'TB': TB, 'TC': TC, 'TD': TD, 'TN': TN, 'TN1': TN1, 'TN2': TN2, 'TF': TF, 'TP': TP, 'TR': TR, 'TZ': TZ,
     'Node': Node, 'NodeX': NodeX,
 }
 
@@ -396,7 +449,7 @@ def get_type(name: str):
 TYPE_INFO = {
     # name: (max_parallel, cache kind)
     'TA': (None, 'pickle'), 'TB': (1, 'pickle'), 'TC': (2, 'pickle'), 'TD': (3, 'json'),
-    'TN': (None, None), 'TN1': (1, None), 'TN2': (2, None), 'TF': (3, 'pickle'), 'TP': (2, 'pickle'), 'TR': (None, 'pickle'),
+    'TN': (None, None), 'TN1': (1, None), 'TN2': (2, None), 'TF': (3, 'pickle'), 'TP': (2, 'pickle'), 'TR': (None, 'pickle'), 'TZ': (None, 'pickle'),
     'Node': (None, 'pickle'), 'NodeX': (None, 'pickle'), 'TA2': (None, 'pickle'),
 }
 
@@ -404,7 +457,7 @@ TYPE_QUALNAME = {
     'TA': 'simlab.tasklib.TA', 'TB': 'simlab.tasklib.TB', 'TC': 'simlab.tasklib.TC',
     'TD': 'simlab.tasklib.TD', 'TN': 'simlab.tasklib.TN', 'TN1': 'simlab.tasklib.TN1',
     'TP': 'simlab.tasklib.TP', 'TR': 'simlab.tasklib.TR', 'TN2': 'simlab.tasklib.TN2', 'TF': 'simlab.tasklib.TF', 'Node': 'simlab.tasklib.Node', 'NodeX': 'simlab.tasklib.NodeX',
-    'TA2': 'simlab.tasklib2.TA',
+    'TA2': 'simlab.tasklib2.TA', 'TZ': 'simlab.tasklib.TZ',
 }
 
 
